@@ -31,6 +31,8 @@ def run(ctx):
     check_resize_keep(ctx, prog)
     check_search_restart(ctx, prog)
     check_trim(ctx, prog)
+    import nullret
+    nullret.check(ctx, prog, 'C03', ('String.cpp',))
     return __doc__.split('\n\n', 1)[1]
 
 
